@@ -335,14 +335,16 @@ theorem txRecordAt_of_get {s : Store} {k : TxId × BlockMeta} {loc : BlkId × Na
 structure MinedChar (c : Ctx) (s : Store) (addrs : List Addr) (done : List (TxId × Nat))
     (acc : Store × List (Nat × TxId)) (ERA : List (TxId × BlockMeta)) : Prop where
   credits : acc.1.credits = s.credits
+  debits : acc.1.debits = s.debits
   pendCred : acc.1.pendCred = s.pendCred
   blocks : acc.1.blocks = s.blocks
   txrecs : ∀ k, AMap.get acc.1.txrecs k = if k ∈ ERA then none else AMap.get s.txrecs k
   del : acc.2 = ERA.map (fun k => (k.2.height, k.1))
-  sound : ∀ k ∈ ERA, (k.1, k.2.height) ∈ done ∧ ∃ loc tx, AMap.get s.txrecs k = some loc ∧
+  sound : ∀ k ∈ ERA, (k.1, k.2.height) ∈ done ∧ inUse s k = false ∧ ∃ loc tx, AMap.get s.txrecs k = some loc ∧
     c.node.txByFileLoc loc = some tx ∧ removable c.own s addrs tx = true
   complete : TxrecU s.txrecs → ∀ x ∈ done, ∀ k loc tx, k.1 = x.1 → k.2.height = x.2 →
-    AMap.get s.txrecs k = some loc → c.node.txByFileLoc loc = some tx → removable c.own s addrs tx = true → k ∈ ERA
+    AMap.get s.txrecs k = some loc → c.node.txByFileLoc loc = some tx → removable c.own s addrs tx = true →
+    inUse s k = false → k ∈ ERA
 
 theorem minedChar_step (c : Ctx) (s : Store) (addrs : List Addr) (done : List (TxId × Nat))
     (acc acc' : Store × List (Nat × TxId)) (ERA : List (TxId × BlockMeta)) (x : TxId × Nat)
@@ -350,17 +352,18 @@ theorem minedChar_step (c : Ctx) (s : Store) (addrs : List Addr) (done : List (T
     ∃ ERA', MinedChar c s addrs (done ++ [x]) acc' ERA' := by
   have hrem : ∀ tx, removable c.own acc.1 addrs tx = removable c.own s addrs tx :=
     fun tx => removable_congr c.own s acc.1 addrs tx hI.credits hI.pendCred
+  have hiu : ∀ k, inUse acc.1 k = inUse s k := fun k => by unfold inUse; rw [hI.credits, hI.debits]
   unfold minedStep at h
   cases hrec : txRecordAt acc.1 x.1 x.2 with
   | none =>
     rw [hrec] at h
     simp only [Option.some.injEq] at h
     subst h
-    refine ⟨ERA, hI.credits, hI.pendCred, hI.blocks, hI.txrecs, hI.del,
+    refine ⟨ERA, hI.credits, hI.debits, hI.pendCred, hI.blocks, hI.txrecs, hI.del,
       fun k hk => ⟨List.mem_append_left _ (hI.sound k hk).1, (hI.sound k hk).2⟩, ?_⟩
-    intro hU y hy k loc tx hk1 hk2 hg hloc hr
+    intro hU y hy k loc tx hk1 hk2 hg hloc hr hnu
     rcases List.mem_append.1 hy with hy | hy
-    · exact hI.complete hU y hy k loc tx hk1 hk2 hg hloc hr
+    · exact hI.complete hU y hy k loc tx hk1 hk2 hg hloc hr hnu
     · rw [List.mem_singleton.1 hy] at hk1 hk2
       by_cases hke : k ∈ ERA
       · exact hke
@@ -384,13 +387,13 @@ theorem minedChar_step (c : Ctx) (s : Store) (addrs : List Addr) (done : List (T
       simp only at h
       -- completeness for the new pair, shared by both branches
       have hcomp : ∀ (ERA' : List (TxId × BlockMeta)), (∀ k ∈ ERA, k ∈ ERA') →
-          (removable c.own s addrs tx = true → rec.1 ∈ ERA') →
+          (removable c.own s addrs tx = true → inUse s rec.1 = false → rec.1 ∈ ERA') →
           TxrecU s.txrecs → ∀ y ∈ done ++ [x], ∀ k loc tx', k.1 = y.1 → k.2.height = y.2 →
             AMap.get s.txrecs k = some loc → c.node.txByFileLoc loc = some tx' →
-            removable c.own s addrs tx' = true → k ∈ ERA' := by
-        intro ERA' hsub hnew hU y hy k loc tx' hk1 hk2 hg hloc' hr
+            removable c.own s addrs tx' = true → inUse s k = false → k ∈ ERA' := by
+        intro ERA' hsub hnew hU y hy k loc tx' hk1 hk2 hg hloc' hr hnu
         rcases List.mem_append.1 hy with hy | hy
-        · exact hsub k (hI.complete hU y hy k loc tx' hk1 hk2 hg hloc' hr)
+        · exact hsub k (hI.complete hU y hy k loc tx' hk1 hk2 hg hloc' hr hnu)
         · rw [List.mem_singleton.1 hy] at hk1 hk2
           have hke : k = rec.1 := hU k rec.1 (by rw [hg]; rfl) (by rw [hgs]; rfl) (hk1.trans hid.symm) (hk2.trans hh.symm)
           subst hke
@@ -400,12 +403,14 @@ theorem minedChar_step (c : Ctx) (s : Store) (addrs : List Addr) (done : List (T
           rw [hloc] at hloc'
           injection hloc' with hloc'
           subst hloc'
-          exact hnew hr
-      by_cases hr : removable c.own acc.1 addrs tx = true
+          exact hnew hr hnu
+      by_cases hr : (removable c.own acc.1 addrs tx && !inUse acc.1 rec.1) = true
       · rw [if_pos hr] at h
         simp only [Option.some.injEq] at h
         subst h
-        refine ⟨ERA ++ [rec.1], hI.credits, hI.pendCred, hI.blocks, ?_, ?_, ?_, ?_⟩
+        simp only [Bool.and_eq_true, Bool.not_eq_true'] at hr
+        obtain ⟨hr, hnu⟩ := hr
+        refine ⟨ERA ++ [rec.1], hI.credits, hI.debits, hI.pendCred, hI.blocks, ?_, ?_, ?_, ?_⟩
         · intro k
           show AMap.get (AMap.erase acc.1.txrecs rec.1) k = _
           rw [AMap.get_erase, hI.txrecs k]
@@ -420,15 +425,16 @@ theorem minedChar_step (c : Ctx) (s : Store) (addrs : List Addr) (done : List (T
           rcases List.mem_append.1 hk with hk | hk
           · exact ⟨List.mem_append_left _ (hI.sound k hk).1, (hI.sound k hk).2⟩
           · rw [List.mem_singleton.1 hk]
-            refine ⟨List.mem_append_right _ ?_, rec.2, tx, hgs, hloc, by rw [← hrem]; exact hr⟩
+            refine ⟨List.mem_append_right _ ?_, by rw [← hiu]; exact hnu, rec.2, tx, hgs, hloc, by rw [← hrem]; exact hr⟩
             rw [hid, hh]; simp
-        · exact hcomp _ (fun k hk => List.mem_append_left _ hk) (fun _ => by simp)
+        · exact hcomp _ (fun k hk => List.mem_append_left _ hk) (fun _ _ => by simp)
       · rw [if_neg hr] at h
         simp only [Option.some.injEq] at h
         subst h
-        refine ⟨ERA, hI.credits, hI.pendCred, hI.blocks, hI.txrecs, hI.del,
+        refine ⟨ERA, hI.credits, hI.debits, hI.pendCred, hI.blocks, hI.txrecs, hI.del,
           fun k hk => ⟨List.mem_append_left _ (hI.sound k hk).1, (hI.sound k hk).2⟩, ?_⟩
-        exact hcomp _ (fun k hk => hk) (fun h' => by rw [← hrem] at h'; exact absurd h' hr)
+        exact hcomp _ (fun k hk => hk) (fun h' hnu => by
+          rw [← hrem] at h'; rw [← hiu] at hnu; exact absurd (by rw [h', hnu]; rfl) hr)
 
 theorem minedChar_fold (c : Ctx) (s : Store) (addrs : List Addr) (l : List (TxId × Nat)) :
     ∀ (done : List (TxId × Nat)) (acc r : Store × List (Nat × TxId)) (ERA : List (TxId × BlockMeta)),
@@ -456,7 +462,7 @@ theorem mined_char (c : Ctx) (s : Store) (addrs : List Addr) (hOf : AMap.T TxId 
     (r : Store × List (Nat × TxId)) (h : removeMinedTxs c s addrs hOf = some r) :
     ∃ ERA, MinedChar c s addrs hOf r ERA := by
   have h0 : MinedChar c s addrs [] (s, []) [] :=
-    ⟨rfl, rfl, rfl, fun _ => by simp, rfl, fun _ h => (nomatch h), fun _ _ h => (nomatch h)⟩
+    ⟨rfl, rfl, rfl, rfl, fun _ => by simp, rfl, fun _ h => (nomatch h), fun _ _ h => (nomatch h)⟩
   obtain ⟨ERA, h1⟩ := minedChar_fold c s addrs hOf [] (s, []) r [] h0 h
   exact ⟨ERA, by simpa using h1⟩
 
@@ -548,10 +554,12 @@ structure RrtChar (c : Ctx) (s : Store) (addrs : List Addr) (o : StepOut) (DEL :
   hofSp : ∀ e ∈ DEL, ∀ dk, spKey e.2 = some dk → ∃ h, (dk.tx, h) ∈ HOF
   hofBack : ∀ x ∈ HOF, ∃ e ∈ DEL, x = (e.1.tx, e.1.blk.height) ∨ ∃ dk, spKey e.2 = some dk ∧ x = (dk.tx, dk.blk.height)
   txrecs : ∀ k, AMap.get o.s.txrecs k = if k ∈ ERA then none else AMap.get s.txrecs k
-  sound : ∀ k ∈ ERA, (k.1, k.2.height) ∈ HOF ∧ ∃ loc tx, AMap.get s.txrecs k = some loc ∧
+  sound : ∀ k ∈ ERA, (k.1, k.2.height) ∈ HOF ∧ inUse o.s k = false ∧ ∃ loc tx, AMap.get s.txrecs k = some loc ∧
     c.node.txByFileLoc loc = some tx ∧ removable c.own o.s addrs tx = true
+  /-- D45 repair: an examined removable record goes only when no credit / debit under its key is left -/
   complete : TxrecU s.txrecs → ∀ x ∈ HOF, ∀ k loc tx, k.1 = x.1 → k.2.height = x.2 →
-    AMap.get s.txrecs k = some loc → c.node.txByFileLoc loc = some tx → removable c.own o.s addrs tx = true → k ∈ ERA
+    AMap.get s.txrecs k = some loc → c.node.txByFileLoc loc = some tx → removable c.own o.s addrs tx = true →
+    inUse o.s k = false → k ∈ ERA
   blocks : ∀ h, AMap.get o.s.blocks h =
     if h ∈ ERA.map (·.2.height) then trimRec (ERA.map (fun k => (k.2.height, k.1))) h (AMap.get s.blocks h)
     else AMap.get s.blocks h
@@ -596,6 +604,10 @@ theorem rrt_char (limit : Nat) (c : Ctx) (s : Store) (addrs : List Addr) (o : St
     exact minedTxs_proj Store.pendCred (fun _ _ => rfl) c _ addrs _ (s2, del2) hmt
   have hrem : ∀ tx, removable c.own s1' addrs tx = removable c.own o.s addrs tx :=
     fun tx => (removable_congr c.own s1' o.s addrs tx (by rw [hoc]; exact (congrArg Prod.fst hs1'cd).symm) hopc).symm
+  have hiu : ∀ k, inUse s1' k = inUse o.s k := fun k => by
+    have e1 : s1'.credits = sc.s.credits := congrArg Prod.fst hs1'cd
+    have e2 : s1'.debits = sc.s.debits := congrArg Prod.snd hs1'cd
+    unfold inUse; rw [hoc, hod, e1, e2]
   have htx1 : s1'.txrecs = s.txrecs := congrArg Prod.fst hs1'recs
   have hbl1 : s1'.blocks = s.blocks := congrArg Prod.snd hs1'recs
   have hfin : o.finish = sc.finish := by rw [ho]
@@ -624,10 +636,11 @@ theorem rrt_char (limit : Nat) (c : Ctx) (s : Store) (addrs : List Addr) (o : St
     simp only at this
     rw [this, htx1]
   · intro k hk
-    obtain ⟨h1, loc, tx, h2, h3, h4⟩ := hM.sound k hk
-    exact ⟨h1, loc, tx, by rw [← htx1]; exact h2, h3, by rw [← hrem]; exact h4⟩
-  · intro hU x hx k loc tx hk1 hk2 hg hloc hr
+    obtain ⟨h1, h0, loc, tx, h2, h3, h4⟩ := hM.sound k hk
+    exact ⟨h1, by rw [← hiu]; exact h0, loc, tx, by rw [← htx1]; exact h2, h3, by rw [← hrem]; exact h4⟩
+  · intro hU x hx k loc tx hk1 hk2 hg hloc hr hnu
     exact hM.complete (by rw [htx1]; exact hU) x hx k loc tx hk1 hk2 (by rw [htx1]; exact hg) hloc (by rw [hrem]; exact hr)
+      (by rw [hiu]; exact hnu)
   · intro h'
     rw [ho]
     show AMap.get (checkBlockRecords s2 del2).blocks h' = _
